@@ -116,6 +116,7 @@ func printerFns(w *World, typ string) []*ssa.Function {
 
 func runC14(c *Ctx) {
 	ruleFormatTaint(c, "format-taint")
+	ruleTextFieldsStayText(c, "pure-capture")
 	c14DecoderErrors(c)
 	c14FieldCoverage(c)
 	c14FullPrinter(c)
